@@ -245,6 +245,7 @@ impl Prop for C04 {
             "block_len_100",
             "indefinite_block",
             "nondecimal_64_bits",
+            "tolerant_handler_reads_past_a_refused_element",
             "nondecimal_wider_than_64_bits_refused",
             "nondecimal_zero_padded_beyond_64_bits",
             "separator_inside_string",
@@ -375,6 +376,11 @@ impl Prop for C04 {
                                     ty: PullTy::Tok,
                                 })
                                 .collect();
+                            // a tolerant handler (carries on after a refused parameter and returns
+                            // Ok): the element is refused all the same, the message must still fail
+                            if ELEMENT_FAULTS.contains(&kind) && rng.chance(1, 3) {
+                                uu.plan.swallow = true;
+                            }
                             if last {
                                 m.end = B::new();
                             }
@@ -443,6 +449,9 @@ impl Prop for C04 {
                         stats.probe(&format!("param_fault_{}", pf.kind));
                         stats.state_str(&format!("pf|{}|{}|{}|{}", pf.kind, posc, pf.p.min(3), u.plan.pulls.len().min(pf.p + 1)));
                         fault_kind = Some(pf.kind.clone());
+                        if u.plan.swallow && pf.p >= 1 && u.plan.pulls.len() > pf.p {
+                            stats.probe("tolerant_handler_reads_past_a_refused_element");
+                        }
                     }
                     if u.hfault.is_some() || u.pfault.is_some() {
                         continue;
